@@ -530,6 +530,9 @@ def record_world(sd, root, n_sessions):
             fin.close()
             snap0 = snapshot(objs)
             tr.append({'ev': 'Load', 'n': len(objs)})
+            if not objs:
+                traces.append(tr)
+                continue
             names_all = [r.source.name for r in recs]
             for _c in range(rng.randint(0, 4)):
                 form = rng.choice(['path', 'obj', 'list'])
